@@ -390,6 +390,10 @@ def handle (op : String) (args : List String) : Option String :=
       some s!"hyp={RenInOK x a b ti p} same={decide (deepGraph (ti.renameInput x a b) (renameInput x a b p) = (deepGraph ti p).map (renNodeIn x a b))}"
     | "renameOutput" =>
       some s!"hyp={RenOutOK x a b ti p} same={decide (deepGraph (ti.renameOutput x a b) (renameOutput x a b p) = (deepGraph ti p).map (renNodeOut x a b))}"
+    | "removeInput" =>
+      let pairs := removeInputClosure p (closureFuel p) [(x, a)] []
+      let hyp := (p.find? x).isSome && RemInsOK pairs p
+      some s!"hyp={hyp} same={decide (deepGraph (ti.removeInputs pairs) (removeInput x a p) = pairs.foldl (fun g xq => g.map (remNodeIn xq.1 xq.2)) (deepGraph ti p))}"
     | "renameCallable" =>
       let hyp := WF p && FreshFor x b p && (p.find? x).isSome && RenCallOK x b ti (eraseIds p)
       some s!"hyp={hyp} same={decide (deepGraph (ti.renameCallable x b) (eraseIds (renameCallable x b p)) = (deepGraph ti (eraseIds p)).map (renNodeCallable x b))}"
@@ -402,6 +406,9 @@ def handle (op : String) (args : List String) : Option String :=
     match eop with
     | "renameInput" => some (showGraph ((deepGraph ti p).map (renNodeIn x a b)))
     | "renameOutput" => some (showGraph ((deepGraph ti p).map (renNodeOut x a b)))
+    | "removeInput" =>
+      let pairs := removeInputClosure p (closureFuel p) [(x, a)] []
+      some (showGraph (pairs.foldl (fun g xq => g.map (remNodeIn xq.1 xq.2)) (deepGraph ti p)))
     | _ => none
   | "graph", [prog, types] => do
     let p ← pProgram (prog.splitOn " ") []
